@@ -95,6 +95,9 @@ class MeshLine1(MeshSimplex, Mesh):
             _subdomains=subdomains,
         )
 
+    def params(self):
+        return np.abs(self.p[0, self.t[1]] - self.p[0, self.t[0]])
+
     def param(self):
         return np.max(np.abs(self.p[0, self.t[1]] - self.p[0, self.t[0]]))
 
